@@ -49,7 +49,7 @@ func (g *graphGen) unit(format string, args ...any) {
 }
 
 func (g *graphGen) scalar() string {
-	return g.r.Pick([]string{"1", "2", "\"s\"", "\"a-long-string-over-12-bytes\"", "None", "True", "3.5", "(1, 2)", "4294967296"})
+	return g.r.Pick([]string{"1", "2", "\"s\"", "\"a-long-string-over-12-bytes\"", "None", "True", "3.5", "(1, 2)", "4294967296", "(3, 1, 2)", "(\"b\", \"a\", \"c\")"})
 }
 
 // leaf is a fresh anonymous mutable value.
